@@ -60,7 +60,11 @@ def run(run, tier, seed):
                 rows = gen.random_table(rng, k, n, nrows, alphabet="AAAACCGT---" if ti % 2 else "AAAAAAC-")
                 # make sure constant rows and SNP rows exist
                 sb.import_table("x", k, True, names, rows)
+            # thresholds from both sides: just below j/n, just above (j-1)/n, and arbitrary fractions
             freqs = [[0, 1000]] + [[(1000 * j) // n, 1000] for j in rng.sample(range(1, n + 1), min(n, 2))]
+            j = rng.randint(1, n)
+            freqs.append([(1000 * (j - 1)) // n + 1, 1000])
+            freqs.append([rng.choice([300, 550, 250, 100, 900, 340]), 1000])
             for minf in freqs:
                 thr = -((-n * minf[0]) // 1000)
                 for (aa, th) in [(False, 1), (True, 4)] if ti % 2 == 0 else [(False, 2)]:
